@@ -9,6 +9,7 @@ side conditions that justify deciding an infinite input domain from finitely man
 from __future__ import annotations
 
 import ast
+import itertools as _it_mod
 import keyword as _keyword
 import re as _re
 
@@ -182,6 +183,14 @@ class _Continue(Exception):
 
 class _Break(Exception):
     pass
+
+
+class Sentinel:
+    """what `object()` evaluates to"""
+    __slots__ = ()
+
+    def __repr__(self):
+        return f"<object at {id(self):#x}>"
 
 
 HOST_TYPES = {"int": int, "str": str, "bool": bool, "float": float, "list": list, "dict": dict,
@@ -1038,6 +1047,8 @@ class Interp:
             return self.apply(f.attrs["__call__"], args, kwargs)
         if f is type and len(args) == 1:
             return type(args[0]) if not isinstance(args[0], (Record, ClassRef, ModuleRef)) else ClassRef("type")
+        if f is object and not args and not kwargs:
+            return Sentinel()        # `_MISSING = object()`: a fresh value equal and identical only to itself
         if isinstance(f, type) and f in (str, int, bool, float, list, tuple, set, dict, frozenset):
             try:
                 if f is str and args and isinstance(args[0], Record):
@@ -1132,6 +1143,10 @@ class Interp:
                 if len(args) > 2:
                     return args[2]
                 raise Raised("AttributeError", (a,))
+            if isinstance(obj, (str, int, float, bool, list, tuple, dict, type(None), Sentinel)) and not hasattr(obj, a):
+                if len(args) > 2:
+                    return args[2]
+                raise Raised("AttributeError", (a,))
             raise AnalysisError(f"{self.name}: getattr on concrete value")
         if name == "iskeyword":
             return _keyword.iskeyword(args[0])
@@ -1180,6 +1195,9 @@ class Interp:
             return [x for x in self.iterate(it) if self.truth(self.apply(fn, [x], {}))]
         if name == "map":
             fn = args[0]
+            if args[1:] and all(isinstance(a, (_it_mod.count, _it_mod.repeat)) for a in args[1:]):
+                # map over endless streams only (`map(str, itertools.count(1))`): consumed lazily with next()
+                return (self.apply(fn, list(xs), {}) for xs in zip(*args[1:]))
             return [self.apply(fn, list(xs), {}) for xs in zip(*[self.iterate(a) for a in args[1:]])]
         raise AnalysisError(f"{self.name}: builtin {name}")
 
@@ -1224,6 +1242,7 @@ def _itertools_module(interp):
 def _walk_own(fn):
     """Nodes of a function body, not descending into nested function definitions."""
     stack = list(fn.body) if isinstance(fn.body, list) else [fn.body]
+    stack = [n for n in stack if not isinstance(n, (ast.FunctionDef, ast.AsyncFunctionDef))]
     while stack:
         n = stack.pop()
         yield n
